@@ -6,6 +6,8 @@ package main
 
 import (
 	"bufio"
+	"bytes"
+	"io"
 	"fmt"
 	"os"
 	"path/filepath"
@@ -51,6 +53,7 @@ type FuncContract struct {
 	Trusted   bool // body not verified (listed in evidence)
 	NilRecv   bool // receiver may be nil
 	MayPanic  bool // explicit panics are documented behaviour (not obligations)
+	NoReturn  bool // ensures false is intended: the call never returns normally
 	Root      bool // goroutine root: thread-local ghost starts at zero except transfers
 	Transfers []Transfer
 	Fresh     []string // results that are freshly allocated (or nil)
@@ -227,14 +230,23 @@ func parseTags(tag string) (props []string, label string) {
 // loadContractFile parses one file. pkg is the package path for name
 // qualification ("" for /verif/spec files, which must use qualified keys);
 // assumed marks dependency-ledger contracts.
+// specOverlay: contract files replaced by a mutant patch (absolute path -> content)
+var specOverlay map[string][]byte
+
 func (sp *Specs) loadContractFile(path, pkg string, assumed bool) error {
-	f, err := os.Open(path)
-	if err != nil {
-		return err
+	var rd io.Reader
+	if b, ok := specOverlay[path]; ok {
+		rd = bytes.NewReader(b)
+	} else {
+		f, err := os.Open(path)
+		if err != nil {
+			return err
+		}
+		defer f.Close()
+		rd = f
 	}
-	defer f.Close()
 	sp.Files = append(sp.Files, path)
-	sc := bufio.NewScanner(f)
+	sc := bufio.NewScanner(rd)
 	sc.Buffer(make([]byte, 1<<20), 1<<20)
 	type rawLine struct {
 		text string
@@ -509,6 +521,8 @@ func (sp *Specs) loadContractFile(path, pkg string, assumed bool) error {
 			curFn.NilRecv = true
 		case "maypanic":
 			curFn.MayPanic = true
+		case "noreturn":
+			curFn.NoReturn = true
 		case "root":
 			curFn.Root = true
 		case "ghost", "tlghost":
